@@ -125,9 +125,9 @@ func RunC12(r *sim.Run) {
 
 	var reqs []*c12Req
 	nSteps := t.Range(15, 55)
-	moves, mutations, twins := 0, 0, 0
+	moves, mutations, twins, churns := 0, 0, 0, 0
 	for step := 0; step < nSteps; step++ {
-		weights := []int{12, 4, 2, 2, 1, 0, 2, 0}
+		weights := []int{12, 4, 2, 2, 1, 0, 2, 0, 2}
 		if extended {
 			weights[5] = 2
 			weights[7] = 1
@@ -283,6 +283,60 @@ func RunC12(r *sim.Run) {
 			}
 			r.Logf("twins %s: %s -> %d, %s -> %d (impersonation: %s=%s %s=%s)", who, up[i], pair[0].q.Status, up[j], pair[1].q.Status,
 				up[i], impHist[up[i]][len(impHist[up[i]])-1].val, up[j], impHist[up[j]][len(impHist[up[j]])-1].val)
+		case 8: // a cluster that answered a question goes away; another one is created and is asked the same question as its first
+			var xs []string
+			for _, n := range names {
+				if live[n] && reachable[n] {
+					xs = append(xs, n)
+				}
+			}
+			if len(xs) == 0 {
+				break
+			}
+			x := xs[t.Draw(len(xs))]
+			var ys []string
+			for _, n := range names {
+				if n != x && reachable[n] {
+					ys = append(ys, n)
+				}
+			}
+			if len(ys) == 0 {
+				break
+			}
+			y := ys[t.Draw(len(ys))]
+			churns++
+			who := fmt.Sprintf("churn%d", churns)
+			ask := func(n string) *c12Req {
+				c := &c12Req{host: n, token: "ts", imp: true, impUser: who, owner: n, ownerUp: true, at: w.Now()}
+				c.q = &Req{ID: fmt.Sprintf("c%d", len(reqs)), Host: n, Method: "GET", Target: "/api/v1/namespaces/default/pods",
+					Headers: [][2]string{{"Authorization", "Bearer ts"}, {"Impersonate-User", who}}}
+				w.Send(c.q)
+				for g := 0; g < 8 && !c.q.Done; g++ {
+					w.Advance(time.Second)
+				}
+				reqs = append(reqs, c)
+				return c
+			}
+			cx := ask(x)
+			w.Delete(x)
+			live[x] = false
+			w.Boundary()
+			if live[y] {
+				w.Delete(y)
+				live[y] = false
+				w.Boundary()
+			}
+			if err := w.Apply(build(y)); err != nil {
+				r.Logf("churn %s: %s -> %d, deleted; recreate %s rejected: %s", who, x, cx.q.Status, y, firstLine(err.Error()))
+				break
+			}
+			live[y] = true
+			w.Boundary()
+			w.Advance(100 * time.Millisecond)
+			w.Boundary()
+			cy := ask(y)
+			r.Logf("churn %s: %s -> %d, deleted; fresh %s -> %d (impersonation: %s=%s %s=%s)", who, x, cx.q.Status, y, cy.q.Status,
+				x, impHist[x][len(impHist[x])-1].val, y, impHist[y][len(impHist[y])-1].val)
 		case 7: // the floating alias moves while a request to it waits to retry a failed review
 			var cands []string
 			for _, n := range names {
@@ -446,6 +500,7 @@ func RunC12(r *sim.Run) {
 	r.ProbeN("alias_moves", moves)
 	r.ProbeN("same_question_to_two_clusters_at_once", twins)
 	r.ProbeN("table_mutations", mutations)
+	r.ProbeN("first_question_to_a_fresh_cluster_after_another_was_stopped", churns)
 	r.Nontrivial = nFwd > 1 && nCl > 1
 	r.Sample = map[string]interface{}{"clusters": nCl, "requests": len(reqs), "ttl_success": ttlS.String(), "ttl_failure": ttlF.String(), "ttl_allow": ttlA.String(), "alias_moves": moves}
 }
